@@ -37,6 +37,51 @@ pub mod sc {
     /// not on the '\n' of a "\r\n" pair (where back() would step over both bytes)
     pub open spec fn settled(s: Scanner) -> bool { !(s.ofs > 0 && s.ofs < s.buf@.len() && s.buf@[s.ofs as int] == 10u8 && s.buf@[s.ofs - 1] == 13u8) }
 
+    // --- C10: what read_escape / read_eval make of the text
+    /// part p, ending at e, is what follows the `$` whose next byte is at o
+    pub open spec fn escape_rel(b: Seq<u8>, o: int, p: crate::eval::EvalPart<&str>, e: int) -> bool {
+        let c = b[o];
+        match p {
+            crate::eval::EvalPart::Literal(t) => (c == 10u8 && crate::vx_utf8(t@).len() == 0)
+                || ((c == 32u8 || c == 36u8 || c == 58u8) && e == o + 1 && crate::vx_utf8(t@) == b.subrange(o, o + 1)),
+            crate::eval::EvalPart::VarRef(t) => (c == 123u8 && e >= o + 2 && b[e - 1] == 125u8 && crate::vx_utf8(t@) == b.subrange(o + 1, e - 1)
+                    && forall|j: int| o + 1 <= j < e - 1 ==> #[trigger] b[j] != 125u8 && b[j] != 0u8)
+                || (c != 123u8 && c != 10u8 && c != 32u8 && c != 36u8 && c != 58u8 && crate::vx_utf8(t@) == b.subrange(o, e)
+                    && (forall|j: int| o <= j < e ==> vname(#[trigger] b[j])) && !vname(b[e])),
+        }
+    }
+    /// one segment [a, e) of the text and the part made of it: an escape if it starts with `$`, else a literal run without `$`
+    pub open spec fn seg_ok(b: Seq<u8>, a: int, e: int, p: crate::eval::EvalPart<&str>) -> bool {
+        if b[a] == 36u8 { escape_rel(b, a + 1, p, e) }
+        else { (match p { crate::eval::EvalPart::Literal(t) => crate::vx_utf8(t@) == b.subrange(a, e), _ => false })
+               && forall|j: int| a <= j < e ==> #[trigger] b[j] != 36u8 }
+    }
+    /// the parts account for the text [o0, upto), segment by segment, in order, with nothing skipped and nothing read twice
+    #[verifier::opaque]
+    pub open spec fn covers(b: Seq<u8>, o0: int, upto: int, segs: Seq<(int, int)>, parts: Seq<crate::eval::EvalPart<&str>>) -> bool {
+        &&& segs.len() == parts.len()
+        &&& (segs.len() == 0 ==> upto == o0)
+        &&& (segs.len() > 0 ==> segs[0].0 == o0 && segs.last().1 == upto)
+        &&& forall|i: int| 0 <= i < segs.len() ==> o0 <= (#[trigger] segs[i]).0 < segs[i].1 <= upto && segs[i].1 <= b.len() && seg_ok(b, segs[i].0, segs[i].1, parts[i])
+        &&& forall|i: int| 0 <= i < segs.len() - 1 ==> (#[trigger] segs[i]).1 == segs[i + 1].0
+    }
+    pub proof fn lemma_covers_push(b: Seq<u8>, o0: int, upto: int, segs: Seq<(int, int)>, parts: Seq<crate::eval::EvalPart<&str>>, e: int, p: crate::eval::EvalPart<&str>)
+        requires covers(b, o0, upto, segs, parts), o0 <= upto < e <= b.len(), seg_ok(b, upto, e, p)
+        ensures covers(b, o0, e, segs.push((upto, e)), parts.push(p))
+    {
+        reveal(covers);
+        let s2 = segs.push((upto, e)); let p2 = parts.push(p);
+        assert forall|i: int| 0 <= i < s2.len() implies o0 <= (#[trigger] s2[i]).0 < s2[i].1 <= e && s2[i].1 <= b.len() && seg_ok(b, s2[i].0, s2[i].1, p2[i]) by {
+            if i < segs.len() { assert(s2[i] == segs[i] && p2[i] == parts[i]); }
+        }
+        assert forall|i: int| 0 <= i < s2.len() - 1 implies (#[trigger] s2[i]).1 == s2[i + 1].0 by {
+            if i < segs.len() - 1 { assert(s2[i] == segs[i] && s2[i + 1] == segs[i + 1]); } else { assert(s2[i] == segs[i]); }
+        }
+    }
+
+    pub proof fn lemma_covers_empty(b: Seq<u8>, o0: int)
+        ensures covers(b, o0, o0, Seq::empty(), Seq::empty()) { reveal(covers); }
+
     // --- C15: the flattened parse result
     pub open spec fn views(v: Seq<&str>) -> Seq<Seq<char>> { Seq::new(v.len(), |i: int| v[i]@) }
     pub open spec fn flat(res: Seq<(&str, Vec<&str>)>) -> Seq<Seq<char>>
